@@ -840,6 +840,14 @@ ovni_ev_add_jumbo(struct ovni_ev *ev, const uint8_t *buf, uint32_t bufsize)
 	rthread.evlen += bufsize;
 
 	if (flushed) {
+		/* A large jumbo event may not leave room for the two flush
+		 * events. Write it now too, so that adding them below cannot
+		 * trigger a second flush nested inside the first one. */
+		if (rthread.evlen + 2 * sizeof(ev->header) >= OVNI_MAX_EV_BUF) {
+			flush_evbuf();
+			t1 = ovni_clock_now();
+		}
+
 		/* Emit the flush events *after* the user event */
 		add_flush_events(t0, t1);
 	}
